@@ -21,6 +21,9 @@ var vExtChoices = []struct {
 	{[]string{"x-other, permessage-deflate"}, false},
 	{[]string{"permessage-deflate; bogus"}, false},
 	{[]string{"permessage-deflate, permessage-deflate; client_max_window_bits=9"}, false},
+	{[]string{"permessage-deflate; server_no_context_takeover=0"}, false},
+	{[]string{"permessage-deflate; client_no_context_takeover=1"}, false},
+	{[]string{"permessage-deflate; server_no_context_takeover; server_no_context_takeover"}, false},
 }
 
 // C13.response: verifyServerResponse on an arbitrary response (status, header strings, requested subprotocols, client
